@@ -221,6 +221,8 @@ class Sched:
                         raise Violation("history-op-effect", "after the operation get(%s)=%s, expected %s" % (
                             hx(k), hx(got), hx(self.models[i].get(k, b""))))
                 self.remember(t.root_hash, self.models[i])
+            elif kind == "bigbatch-marker":
+                self.ctx.count("big_batches")
             elif kind == "nested":
                 # a squash_changes block opened on the batch trie of another block.  Whether the
                 # code supports that is not promised (any refusal is accepted, and then nothing
@@ -351,6 +353,17 @@ def gen_case(rnd, tier):
             o = hh.gen_op(rnd, universe, pool, keys[i])
             hh._track(o, keys[i])
             steps.append(["unit", i, o, rnd.random() < 0.5])
+    if rnd.random() < (0.03 if tier == "quick" else 0.02):
+        # SCALE: one batch of hundreds of operations (well over a thousand buffered database
+        # entries, many of them tombstones of nodes the database already holds) on trie 0
+        sub = []
+        for _ in range(rnd.randint(250, 420)):
+            o = hh.gen_op(rnd, universe, pool, keys[0])
+            hh._track(o, keys[0])
+            sub.append(o)
+        if 0 not in open_spans:
+            steps.append(["unit", 0, ["batch", sub, None], False])
+            steps.append(["bigbatch-marker", 0])
     return {"engine": "c04", "ntries": ntries, "pseed": rnd.randrange(1 << 30), "steps": steps,
             "universe": universe.kind}
 
